@@ -125,7 +125,7 @@ Definition cnt (f : Z -> nat) (j : nat) (xs : list Z) : Z :=
 Definition cf_counts (f : Z -> nat) (n : nat) (xs : list Z) : list Z :=
   map (fun j => cnt f j xs mod U64) (seq 0 (S n)).
 Definition sum_fold (o : ops) (xs : list Z) : fsum := fold_left (fun a v => o_add o a (SFin v)) xs (SFin 0).
-Definition bkt (o : ops) (c : cfg) (v : Z) : nat := bucket (c_bounds c) (o_key o v).
+Definition bkt (o : ops) (c : cfg) (v : Z) : nat := bucketp (c_bounds c) (fun b => o_lt o b v).
 
 Definition closed (o : ops) (c : cfg) (xs : list Z) : hist :=
   mkH (c_bounds c)
@@ -186,7 +186,7 @@ Lemma aggregate_closed : forall o c xs v, aggregate o (closed o c xs) v = closed
 Proof.
   intros o c xs v. unfold aggregate, closed. cbn [h_bounds h_counts h_count h_sum h_min h_max h_rmm h_rmm_mem].
   f_equal.
-  - apply (incr_cf (bkt o c)). unfold bkt. apply bucket_le_length.
+  - apply (incr_cf (bkt o c)). unfold bkt. apply bucketp_le_length.
   - rewrite wadd_mod_l. rewrite app_length. cbn [length]. f_equal. lia.
   - unfold sum_fold. rewrite fold_left_app. reflexivity.
   - destruct (c_rmm c); [|reflexivity]. unfold list_min. rewrite fold_left_app. reflexivity.
@@ -269,7 +269,7 @@ Theorem counts_sum_to_count_lemma : forall o c xs, Z.of_nat (length xs) < U64 ->
 Proof.
   intros o c xs Hlen. rewrite agg_closed. cbn [closed h_counts h_count].
   rewrite cf_counts_small by exact Hlen.
-  rewrite cnt_total by (intros v; apply bucket_le_length).
+  rewrite cnt_total by (intros v; apply bucketp_le_length).
   rewrite Z.mod_small by lia. split; reflexivity.
 Qed.
 
@@ -477,16 +477,19 @@ Proof.
   - apply Z.mod_pos_bound. apply U64_pos.
 Qed.
 
-(* cur.Diff(cur.Merge(delta)) gives the delta's bucket counts and count back ... *)
-Theorem diff_inverts_merge_lemma : forall o c xs ys,
+(* cur.Diff(cur.Merge(delta)) gives the delta back: bucket counts, count and (exact addition) the sum *)
+Theorem diff_inverts_merge_lemma : forall o c xs ys, exact_add o ->
   let d := diff o (agg o c xs) (merge o (agg o c xs) (agg o c ys)) in
-  h_counts d = h_counts (agg o c ys) /\ h_count d = h_count (agg o c ys) /\ h_bounds d = h_bounds (agg o c ys).
+  h_counts d = h_counts (agg o c ys) /\ h_count d = h_count (agg o c ys) /\ h_bounds d = h_bounds (agg o c ys) /\
+  h_sum d = h_sum (agg o c ys).
 Proof.
-  intros o c xs ys. cbn zeta.
+  intros o c xs ys He. cbn zeta.
   destruct (closed_counts_u64 o c ys) as [H1 H2].
   destruct (diff_inverts_merge_counts o (agg o c xs) (agg o c ys)) as (Ha & Hb & Hc & _).
   - rewrite !agg_closed. cbn [closed h_counts]. rewrite !cf_counts_length. reflexivity.
   - rewrite agg_closed. exact H1.
   - rewrite agg_closed. exact H2.
-  - rewrite Ha, Hb, Hc. rewrite !agg_closed. repeat split; reflexivity.
+  - rewrite Ha, Hb, Hc. split; [reflexivity|]. split; [reflexivity|]. split; [rewrite !agg_closed; reflexivity|].
+    rewrite (merge_homomorphism_lemma o c xs ys He). cbn [diff h_sum].
+    rewrite !(sum_is_sum_lemma o c _ He). cbn [fneg]. rewrite He, zsum_app. f_equal. lia.
 Qed.
